@@ -5,7 +5,7 @@ use crate::hist::*;
 use crate::rfc2131 as wire;
 use proptest::prelude::*;
 use serde::{Deserialize, Serialize};
-use std::collections::{BTreeMap, HashSet};
+use std::collections::{BTreeMap, HashMap, HashSet};
 use std::net::Ipv4Addr;
 
 pub trait Oracle {
@@ -205,10 +205,57 @@ fn classify_history(h: &History, out: &mut Outcome) {
 #[derive(Default)]
 pub struct C09Oracle {
     pools_changed: bool,
+    /// (client, address) -> the virtual instant up to which the client was last told it holds it
+    told: HashMap<(Vec<u8>, Ipv4Addr), i64>,
 }
 
 impl Oracle for C09Oracle {
     fn on_step(&mut self, obs: &StepObs, out: &mut Outcome) {
+        self.judge(obs, out);
+        if out.fail.is_some() {
+            return;
+        }
+        // "holds an unexpired lease" is judged above from the stored rows.  That is only the
+        // holder's view too while every row runs exactly as long as its holder was told: a row
+        // that runs longer keeps others out of an address that is free, one that runs shorter
+        // gives away an address that is held.
+        if let StepObs::Msg(m) = obs {
+            if let (true, Ok(rep)) = (m.matched && is_alloc(m.msgtype), &m.result) {
+                if let Some(l) = rep.lease_time() {
+                    self.told.insert((m.identity.clone(), rep.yiaddr), m.vnow + l as i64);
+                }
+            }
+            for r in &m.after {
+                if let Some(t) = self.told.get(&(r.client.clone(), r.ip)) {
+                    let stored = r.expire as i64 + m.shift;
+                    if (stored - *t).abs() > 2 {
+                        if m.before.iter().any(|b| b.ip == r.ip && b.client == r.client && b.expire == r.expire) {
+                            // not this step's doing (reported at the step that did it)
+                            continue;
+                        }
+                        out.nontrivial = true;
+                        out.fail(
+                            "C09:record-differs-from-what-the-holder-was-told",
+                            format!(
+                                "client {:02x?} was told it holds {} until virtual second {}; after this message (from {:02x?}, answered with {:?}) the row runs until {}",
+                                r.client,
+                                r.ip,
+                                t,
+                                m.identity,
+                                m.result.as_ref().map(|x| x.yiaddr).map_err(|e| format!("{:?}", e)),
+                                stored
+                            ),
+                        );
+                        return;
+                    }
+                }
+            }
+        }
+    }
+}
+
+impl C09Oracle {
+    fn judge(&mut self, obs: &StepObs, out: &mut Outcome) {
         let m = match obs {
             StepObs::Msg(m) => m,
             StepObs::Swap => {
